@@ -729,6 +729,9 @@ theorem newAppend_loop_ok (off : Nat) : ∀ (n : Nat) {fa : Option Nat} {d d' : 
     intro fa d d' files h
     unfold newAppend.loop at h
     obtain ⟨f, d1, hf, h⟩ := M.bind_ok_inv h
+    -- the A6 check (decoded name too long to be written back) performs no I/O
+    split at h
+    · exact (M.throw_ok_inv h).elim
     obtain ⟨rest, d2, hrest, h⟩ := M.bind_ok_inv h
     obtain ⟨_, rfl⟩ := M.pure_ok_inv h
     obtain ⟨hb1, hp1, hl1⟩ := (centralHeader_adv (p := fun _ => True) off).elim hf trivial
